@@ -245,8 +245,19 @@ fn int10_0a(thorough: bool) -> Vec<Case> {
     let mut v = Vec::new();
     let als: Vec<u32> = if thorough { (0..256).collect() } else { vec![0x41, 0x00, 0x0A, 0x20, 0x7F, 0x80, 0xE9, 0xFF, 0x09, 0x0D] };
     let cxs: Vec<u32> = if thorough { vec![0, 1, 2, 3, 5, 79, 80, 81, 255, 256, 300, 4096, 0x7FFF, 0x8000, 0xFFFF] } else { vec![0, 1, 2, 5, 300, 4096] };
+    // every count 0..330 (and the multiples of the usual line widths beyond) for one character: a row-wise
+    // writer that is wrong at multiples of its row length shows only there
+    let mut pairs: Vec<(u32, u32)> = Vec::new();
     for al in als.iter() {
         for cx in cxs.iter() {
+            pairs.push((*al, *cx));
+        }
+    }
+    for cx in (0..=330u32).chain([400, 512, 640, 800, 1000, 1024, 1320, 1920, 2000, 4000]) {
+        pairs.push((0x2A, cx));
+    }
+    for (al, cx) in pairs.iter() {
+        {
             let mut code = vec![label("start")];
             code.push(z(ZeroOp::Stc));
             others(&mut code, &["cx"]);
@@ -272,9 +283,25 @@ fn int10_13(thorough: bool) -> Vec<Case> {
         (0xFFFF, 0x000F, "last byte of memory then wrap to 0"),
         (0x0030, 0x0000, "text whose high bytes form well-formed UTF-8 sequences"),
     ];
+    let mut combos: Vec<(u16, u16, &str, u32, u32)> = Vec::new();
     for (es, bp, pname) in places.iter() {
         for dl in dls.iter() {
             for cx in cxs.iter() {
+                combos.push((*es, *bp, *pname, *dl, *cx));
+            }
+        }
+    }
+    // every start column with a short string, every length up to 200 at column 0 and at column 3
+    for dl in 0..=255u32 {
+        combos.push((0x0020, 0x0000, "text at 0x200", dl, 3));
+    }
+    for cx in 0..=200u32 {
+        combos.push((0x0020, 0x0000, "text at 0x200", 0, cx));
+        combos.push((0x0020, 0x0000, "text at 0x200", 3, cx));
+    }
+    {
+        {
+            for (es, bp, pname, dl, cx) in combos.iter() {
                 let mut code = vec![label("start")];
                 set_seg(&mut code, "es", *es);
                 code.push(z(ZeroOp::Std));
@@ -654,7 +681,7 @@ pub fn run(tier: &Tier) -> i32 {
     }
     let mut cov = Coverage::default();
     cov.exhaustive = true;
-    cov.rule = "every run is the real binary with a scripted stdin (pipe closed after the script). INT 21h/02: all 256 DL values x 2 prior AL. INT 21h/01: 20 stdin shapes (closed, empty line, lines with white space at either end / of white space only, empty line(s) followed by a line, short, exactly capacity, longer, no trailing newline, two lines, 300 characters, UTF-8) x 2 prior AL, followed by a second read and an echo. INT 21h/0Ah: 5 buffer placements (low, offset wrap at 16 bits, crossing 2^20, ending exactly at 0xFFFFF, header split by the wrap) x capacities {0,1,2,5,16,255} (thorough: all 256) x the stdin shapes, the buffer surrounded by 0xEE markers; plus a line of 1-, 2-, 3- and 4-byte characters cut by every capacity 0..length+1 (the cut falls inside a character). INT 10h/0Ah: AL x CX lattice (thorough: all 256 AL x 15 CX up to 65535). INT 10h/13h: 6 (ES,BP) placements incl. text whose high bytes form well-formed UTF-8, strings crossing 2^20 and BP+i wrapping at 16 bits x DL x CX (thorough: all 256 DL x 12 CX up to 65535). Every AH value 0..255 other than the supported ones for both interrupts, at the first / a middle / the last line. All 25 ordered pairs of services x 5 stdin scripts (thorough: all 125 ordered triples x 5 scripts). After each service the program prints all registers, the flags, the marker window around the buffer, the first 48 and the last 48 bytes of memory; service output is matched byte for byte and every printed field against the reference state. Service output followed directly by whatever ends the run (divide error, unsupported AH of either interrupt, hlt, the end of the program, quit / end of input at a breakpoint prompt, a reading service at end of input), 3 writing services x 8 endings x with / without an earlier print statement: what the service wrote must precede the ending's message. Long input: 130 lines of 100 characters (13 KB, more than any buffer holds) read in a loop by INT 21h/01 and by INT 21h/0Ah, every line echoed. Every conforming run of INT 21h/01, of the service pairs and of the long-input programs is repeated with the same standard input delivered in pieces (2 bytes every 3 ms; 997 bytes every 2 ms for the long input) and must produce the same output byte for byte. Every distinct program that reads input also runs once with a standard input on which every read fails and must end normally".into();
+    cov.rule = "every run is the real binary with a scripted stdin (pipe closed after the script). INT 21h/02: all 256 DL values x 2 prior AL. INT 21h/01: 20 stdin shapes (closed, empty line, lines with white space at either end / of white space only, empty line(s) followed by a line, short, exactly capacity, longer, no trailing newline, two lines, 300 characters, UTF-8) x 2 prior AL, followed by a second read and an echo. INT 21h/0Ah: 5 buffer placements (low, offset wrap at 16 bits, crossing 2^20, ending exactly at 0xFFFFF, header split by the wrap) x capacities {0,1,2,5,16,255} (thorough: all 256) x the stdin shapes, the buffer surrounded by 0xEE markers; plus a line of 1-, 2-, 3- and 4-byte characters cut by every capacity 0..length+1 (the cut falls inside a character). INT 10h/0Ah: AL x CX lattice (thorough: all 256 AL x 15 CX up to 65535) and, for one character, EVERY count 0..330 plus the multiples of the usual line widths up to 4000. INT 10h/13h: 6 (ES,BP) placements incl. text whose high bytes form well-formed UTF-8, strings crossing 2^20 and BP+i wrapping at 16 bits x DL x CX (thorough: all 256 DL x 12 CX up to 65535), every start column 0..255 with a short string and every length 0..200 at two columns. Every AH value 0..255 other than the supported ones for both interrupts, at the first / a middle / the last line. All 25 ordered pairs of services x 5 stdin scripts (thorough: all 125 ordered triples x 5 scripts). After each service the program prints all registers, the flags, the marker window around the buffer, the first 48 and the last 48 bytes of memory; service output is matched byte for byte and every printed field against the reference state. Service output followed directly by whatever ends the run (divide error, unsupported AH of either interrupt, hlt, the end of the program, quit / end of input at a breakpoint prompt, a reading service at end of input), 3 writing services x 8 endings x with / without an earlier print statement: what the service wrote must precede the ending's message. Long input: 130 lines of 100 characters (13 KB, more than any buffer holds) read in a loop by INT 21h/01 and by INT 21h/0Ah, every line echoed. Every conforming run of INT 21h/01, of the service pairs and of the long-input programs is repeated with the same standard input delivered in pieces (2 bytes every 3 ms; 997 bytes every 2 ms for the long input) and must produce the same output byte for byte. Every distinct program that reads input also runs once with a standard input on which every read fails and must end normally".into();
     cov.bounds = json!({"groups": groups.iter().map(|(n, k)| json!({"group": n, "runs": k})).collect::<Vec<_>>(), "service_output_bytes_matched": out_bytes.load(Ordering::Relaxed), "unsupported_reports_checked": unsup.load(Ordering::Relaxed), "cases_conforming_only_in_dos_encoding": dos_mode_used.load(Ordering::Relaxed), "programs_run_with_unreadable_stdin": unreadable.load(Ordering::Relaxed), "runs_repeated_with_input_delivered_in_pieces": pieces.load(Ordering::Relaxed), "tier": tier.name()});
     cov.assumptions = common_assumptions();
     cov.assumptions.push("characters >= 0x80 may be written as the raw byte or as the UTF-8 encoding of the same code point".into());
